@@ -264,6 +264,7 @@ func (ex *Exec) resetPath() {
 	ex.depth = 0
 	ex.stubs = map[string]FuncV{}
 	ex.jsonTok = map[*Term]*JNode{}
+	ex.jsonEsc = map[*Term]*Term{}
 	ex.pcCount = 0
 	ex.declared = map[string]bool{}
 	ex.observes = nil
